@@ -599,6 +599,11 @@ func genNsecCase(r *vlib.R, emit func(string)) int {
 			emit(fmt.Sprintf("z nod %s %s %d", sg, qq, t))
 			emit(fmt.Sprintf("z agg %s %s %d %d", sg, qq, t, c))
 			cnt += 4
+			if signableNsec(set) && r.Chance(1, 5) {
+				// no signature at all: only a proven insecure delegation above the name excuses it
+				emit(fmt.Sprintf("z authu %s %s %d %s %s", sg, qq, t, vlib.Pick(r, []string{"nx", "nd"}), dsVariant(r)))
+				cnt++
+			}
 			if signableNsec(set) && r.Chance(1, 3) {
 				// the same records and question through the real Resolver.authority
 				emit(fmt.Sprintf("z auth %s %s %d %s %s", sg, qq, t, vlib.Pick(r, []string{"nx", "nd"}), authVariant(r)))
@@ -660,6 +665,25 @@ func genNsecCase(r *vlib.R, emit func(string)) int {
 			}
 			emit(fmt.Sprintf("z wild %s %s", genSigner(r, z), ansSigsStr(gs)))
 			cnt++
+		}
+	}
+	// unsigned responses at / below the zone's delegation points (secure and insecure ones) and
+	// below ordinary names: only the insecure delegation's own NSEC excuses the missing signatures
+	if ch := z.chain(); signableNsec(ch) && r.Chance(1, 3) {
+		first := true
+		for _, nd := range z.auth() {
+			if !nd.isCut() && !r.Chance(1, 6) || len(nd.n) <= len(z.apex) || len(nd.n.wire()) > 200 {
+				continue
+			}
+			if first {
+				emit("z set " + recsStr(ch))
+				cnt++
+				first = false
+			}
+			for _, q := range []name{nd.n, nd.n.child("kid"), nd.n.child("kid").child("x")} {
+				emit(fmt.Sprintf("z authu %s %s %d %s %s", z.apex, q, vlib.Pick(r, []int{1, 43, 28, 2}), vlib.Pick(r, []string{"nx", "nd"}), dsVariant(r)))
+				cnt++
+			}
 		}
 	}
 	// forged denial of an EXISTING owner: the whole genuine chain replayed except
@@ -805,6 +829,11 @@ func authWitnessOps() []string {
 		"z auth example www.example 1 nx good",  // existing name
 		"z auth example nope.example 1 nx good", // proven
 		"z auth example www.example 28 nd good", // proven NODATA
+		// RRSIG-type questions: a denial is validated like any other (fixed in /repo 129b2e9)
+		"z auth example www.example 46 nx badsig",
+		"z auth example www.example 46 nx nodsig",
+		"z auth example www.example 46 nx good",
+		"z auth example nope.example 46 nx good",
 		"z auth example nope.example 1 nx nodsig",
 		"z auth example nope.example 1 nx insec")
 	return out
